@@ -17,12 +17,11 @@ import CpProofs.C16ElemsFull
                             full script ever evaluates ("guard against being run twice") — with the ETag it
                             finds or computes at that moment (`firstEtags`).
   * `flow_gen_not_dictated_full`   … and the full entity otherwise.
-  * `flow_304_no_body`      every 304 that a validator raises (base status ≠ 304), streamed or buffered,
-                            whatever the script: no body, no Content-Range, no Content-Length;
-                            `flow_buffered_304_no_body`: every buffered 304.
-  * `flow_304_no_body_full` / `not_flow_304_no_body_full`   the unrestricted statement is FALSE for the code:
-                            a handler that sets 304 itself on a streamed response and returns a body has it
-                            delivered (finalize tests `self.stream` before the no-body statuses); witness `decide`d.
+  * `flow_304_no_body`      FULL strength (since the repair b33ff58 of F17d): every 304 the application sends —
+                            raised by a validator or chosen by the handler, streamed or buffered, any kind, any
+                            script — has no body, no Content-Range, no Content-Length; `flow_304_no_body_full`.
+  * `unfixed_finalize_304_with_body`   the finalize of a tree WITHOUT the repair (`plainRespXUnfixed`: `self.stream`
+                            tested first) delivers the body of a handler-chosen streamed 304: witness `decide`d.
   * `flow_412_no_entity`    a 412 never carries the entity, a Content-Range or an ETag (base status ≠ 412).
   * `flow_304_getHead`      a validator-raised 304 only answers GET / HEAD.
   * `flow_non2xx_untouched` a handler status outside 2xx / 304 / 412 is never changed, whatever the script.
@@ -40,7 +39,8 @@ theorem servedRespX_buffered (r : ReqX) (hs : r.stream = false) (s : Served) (e 
 
 theorem plainRespX_buffered (r : ReqX) (hs : r.stream = false) (st : Nat) (e : Option Text) :
     plainRespX r st e = plainResp r.base st e := by
-  simp [plainRespX, hs]
+  unfold plainRespX plainResp
+  split <;> simp [hs]
 
 /-- the tool step at the end of the full script is `etagPhase` -/
 theorem tool_step_eq_etagPhase (r : ReqX) :
@@ -217,7 +217,9 @@ theorem plainRespX_status (r : ReqX) (st : Nat) (e : Option Text) : (plainRespX 
   unfold plainRespX plainResp
   split
   · rfl
-  · split <;> rfl
+  · split
+    · rfl
+    · simp_all
 
 /-- **304 / 412 exactly when the validators dictate** — handler-generated 2xx (other than the 2xx being
     304/412, which it cannot be), any script, streamed or buffered. -/
@@ -294,11 +296,17 @@ theorem etagPhase_noBody (r : Req) (st : Nat) (ok : Option Text → Resp)
   · exact finish_noBody _ _ (conditionalResp_noBody _ _)
   · exact finish_noBody _ _ (conditionalResp_noBody _ _)
 
-/-- **A 304 raised by a validator carries no body** (nor Content-Range, nor Content-Length): every
-    request whose handler did not itself choose the status 304 — any kind, any script, any step that
-    raises before or after the body was produced, `response.stream` on or off. -/
-theorem flow_304_no_body (r : ReqX) (hb : r.base.baseStatus ≠ 304) (h : (respondX r).status = 304) :
-    NoBody (respondX r) := by
+theorem plainRespX_noBody (r : ReqX) (st : Nat) (e : Option Text) :
+    (plainRespX r st e).status = 304 → NoBody (plainRespX r st e) := by
+  intro hv
+  rw [plainRespX_status] at hv
+  subst hv
+  simp [plainRespX, noBodyStatus, NoBody]
+
+/-- **A 304 carries no body** (nor Content-Range, nor Content-Length) — FULL strength: every 304 the
+    application sends, whether a validator raised it (before or after the body was produced) or the handler
+    chose the status itself, any kind, any script, `response.stream` on or off. -/
+theorem flow_304_no_body (r : ReqX) (h : (respondX r).status = 304) : NoBody (respondX r) := by
   revert h
   unfold respondX
   cases hk : r.base.kind
@@ -307,57 +315,36 @@ theorem flow_304_no_body (r : ReqX) (hb : r.base.baseStatus ≠ 304) (h : (respo
     · exact finish_noBody _ _ (conditionalResp_noBody _ _)
     · exact finish_noBody _ _ (fun h => by simp [servedResp] at h)
     · exact etagPhase_noBody _ _ _ (fun e h => absurd h (servedRespX_not304 r _ e))
-    · rename_i st hh
-      -- a `file` handler never returns `.plain`
-      simp [handler, hk] at hh
-      split at hh <;> simp at hh
+    · exact etagPhase_noBody _ _ _ (plainRespX_noBody r _)
   · simp only [outcome]
     split
     · exact finish_noBody _ _ (conditionalResp_noBody _ _)
-    · exact finish_noBody _ _ (fun h => by rw [plainRespX_status] at h; exact absurd h hb)
+    · exact finish_noBody _ _ (plainRespX_noBody r _ _)
 
-/-- every buffered 304 carries no body, whoever chose the status (`Response.finalize`) -/
-theorem flow_buffered_304_no_body (r : ReqX) (hs : r.stream = false) (h : (respondX r).status = 304) :
-    NoBody (respondX r) := by
-  have hplain : ∀ st e, (plainRespX r st e).status = 304 → NoBody (plainRespX r st e) := by
-    intro st e hv
-    rw [plainRespX_buffered r hs] at hv ⊢
-    by_cases hn : noBodyStatus st = true
-    · simp [plainResp, hn, NoBody]
-    · simp [plainResp, hn] at hv
-      subst hv
-      simp [noBodyStatus] at hn
-  revert h
-  unfold respondX
-  cases hk : r.base.kind
-  · simp only []
-    split
-    · exact finish_noBody _ _ (conditionalResp_noBody _ _)
-    · exact finish_noBody _ _ (fun h => by simp [servedResp] at h)
-    · exact etagPhase_noBody _ _ _ (fun e h => absurd h (servedRespX_not304 r _ e))
-    · exact etagPhase_noBody _ _ _ (hplain _)
-  · simp only [outcome]
-    split
-    · exact finish_noBody _ _ (conditionalResp_noBody _ _)
-    · exact finish_noBody _ _ (hplain _ _)
-
-/-- the statement without the restriction -/
+/-- the statement, unrestricted -/
 def flow_304_no_body_full : Prop := ∀ r : ReqX, (respondX r).status = 304 → NoBody (respondX r)
 
-/-- a handler that answers 304 by itself on a streamed response, and returns a body all the same -/
+theorem flow_304_no_body_full_holds : flow_304_no_body_full := flow_304_no_body
+
+/-- every buffered 304 (corollary) -/
+theorem flow_buffered_304_no_body (r : ReqX) (_hs : r.stream = false) (h : (respondX r).status = 304) :
+    NoBody (respondX r) := flow_304_no_body r h
+
+/-- a handler that answers 304 by itself on a streamed response, and returns a body all the same (F17d) -/
 def streamed304 : ReqX :=
   ⟨{ kind := .gen, getHead := true, isHead := false, proto11 := true, lenKnown := true,
      baseStatus := 304, callSince := false, etagsOn := false, autotags := false, handlerEtag := none,
      autoTag := [], lastmod := none, im := [], inm := [], ims := none, ius := none, range := none,
      content := [1, 2, 3] }, true, [], [], none⟩
 
-/-- the unrestricted statement is false for the code as it is: `finalize` tests `self.stream` before
-    the statuses that have no body (replayed on the real code as a corpus case; the oracle treats a
-    handler-chosen 304 as outside the property statement) -/
-theorem not_flow_304_no_body_full : ¬ flow_304_no_body_full := by
-  intro h
-  have := h streamed304 (by decide)
-  exact absurd this.1 (by decide)
+/-- **before the repair b33ff58** the finalize step kept the body of such a response: with `self.stream`
+    tested first (`plainRespXUnfixed`) the F17d witness is a 304 that carries its body -/
+theorem unfixed_finalize_304_with_body :
+    (finish streamed304.base (plainRespXUnfixed streamed304 304 none)).status = 304 ∧
+      (finish streamed304.base (plainRespXUnfixed streamed304 304 none)).body = .bytes [1, 2, 3] := by decide
+
+/-- … and the repaired one does not -/
+theorem fixed_finalize_304_no_body : respondX streamed304 = ⟨304, none, none, none, .empty⟩ := by decide
 
 /-! ### 412, methods, other statuses -/
 
@@ -708,7 +695,7 @@ example : (respondX { flowExample with base := { flowExample.base with getHead :
 -- autotags before the body exists hashes the empty body
 example : (respondX { flowExample with script := [.etags true], base := { flowExample.base with inm := ["\"e\"".toList] } }).status
     = 304 := by decide
-example : (respondX streamed304).body = .bytes [1, 2, 3] := by decide
+example : (respondX streamed304).body = .empty := by decide
 example : respondX (lift reqExample []) = respond reqExample := respondX_legacy _ _
 
 end CpProofs.C16
